@@ -16,7 +16,8 @@ EXPLANATION = (
     "except the listed idempotent probe cache; no thread_local, no static mut. Ambient input: functions reachable from the "
     "non-gz C entry points call nothing outside core except the allocator and CPU detection. Crc32Fold's fold/fold_copy/finish "
     "branch on the same probe. Equality of SIMD and scalar results and independence from stale buffer contents are not decided. "
-    "GUARD/hash-read: every hash insertion at `strstart` in the block functions (7 sites) is dominated by lookahead >= WANT_MIN_MATCH = 4, so the hash never covers a stale byte behind the valid data.")
+    "GUARD/hash-read: every hash insertion at `strstart` in the block functions (7 sites) is dominated by lookahead >= WANT_MIN_MATCH = 4, so the hash never covers a stale byte behind the valid data. "
+    "ATOM/adler-stride and FLOW/crc-start are evaluated here too (kernels agree with the portable code only within NMAX and from the same starting value).")
 
 CLAIM = dict(
     text="Static feature-gating proof over the call graph (dominating probes imply each kernel's target features, including the "
